@@ -339,4 +339,10 @@ inductive PyDDD where
   | period (a b : PyDDD)
 deriving Repr, Inhabited
 
+/-- what a mapping holds under a key: one value, or a sequence of values (`isinstance(x, (list, tuple))`) -/
+inductive PyOneMany (α : Type) where
+  | one (x : α)
+  | many (xs : List α)
+deriving Repr, Inhabited
+
 end ICal.PyRT
